@@ -11,8 +11,6 @@ import (
 	"verif/sim/simkit/tape"
 )
 
-func init() { engines["smoke"] = smoke }
-
 func smoke(args []string) int {
 	seed := uint64(1)
 	if len(args) > 0 {
